@@ -329,6 +329,24 @@ class Interp:
             return math.sqrt(np.linalg.det(FJ.T @ FJ)) if t > 1 else 1.0
         if n == "FacetJacobianInverse":
             return np.linalg.pinv(geo.facet_jacobian(f))
+        if n in ("CellRidgeJacobian", "RidgeJacobian", "RidgeJacobianDeterminant", "RidgeJacobianInverse",
+                 "CellRidgeJacobianDeterminant", "CellRidgeJacobianInverse"):
+            if t != 3:
+                raise Unsupported(n + " for tdim != 3")
+            a, b = REF[cn]["edges"][getattr(env, "ridge", 0)]
+            C = (REF[cn]["verts"][b] - REF[cn]["verts"][a]).reshape(t, 1)
+            if n == "CellRidgeJacobian":
+                return C
+            if n == "CellRidgeJacobianDeterminant":
+                return float(np.linalg.norm(C))
+            if n == "CellRidgeJacobianInverse":
+                return np.linalg.pinv(C)
+            RJ = geo.J @ C
+            if n == "RidgeJacobian":
+                return RJ
+            if n == "RidgeJacobianDeterminant":
+                return float(np.linalg.norm(RJ))
+            return np.linalg.pinv(RJ)
         if n == "FacetOrigin":
             return geo.facet_vertices(f)[0]
         if n == "CellFacetOrigin":
